@@ -53,6 +53,11 @@ def variant(case, k):
         # the same two regular expressions in every variant, in another member order and with other subschemas
         pp = [("^v", {"type": "string"}), ("x$", {"minimum": 7})]      # "vq": "s" / "wx": 9 satisfy one arrangement only
         root["patternProperties"] = dict(pp if k % 2 == 0 else [(pp[1][0], pp[0][1]), (pp[0][0], pp[1][1])])
+    if props is not None and "ve" not in props:
+        # a long list of scalars that Python's == / hash cannot tell from its twin in the next variant (1 / true,
+        # 0 / false, 2 / 2.0): as JSON they are different lists
+        long_enum = [[1, 0, "a", "b", "c", 2, None, 10, 11, 12], [True, False, "a", "b", "c", 2.0, None, 10, 11, 12]]
+        props["ve"] = {"enum": long_enum[k % 2]}
     return c
 
 
@@ -117,6 +122,7 @@ def instance_for(case, k):
     x = copy.deepcopy(xs[k % len(xs)])
     if isinstance(x, dict):
         # the SAME string goes through every validator's own "vf" function (they disagree about it)
+        x.setdefault("ve", [1, True, 0, False][k % 4])     # in one variant's list, not in the other's
         x.setdefault("vq", "s")     # meets only the first expression
         x.setdefault("wx", 9)       # meets only the second
         x.setdefault("vf", ["ab", "b", "abcd", "abc"][len(case["instances"][0]) % 4 if isinstance(
@@ -224,6 +230,24 @@ class C18(Prop):
                         viol = bool(spec.keyword_violations(ctx2, root, kname, instance_for(case, k), ""))
                     except (spec.Unsupported, spec.Unresolvable, RecursionError):
                         continue
+                    if kname == "properties" and isinstance(root["properties"], dict) and not ctx2.inexact:
+                        # ... and property by property (several of them are built to fail)
+                        xk = instance_for(case, k)
+                        bad_impl = set(json.loads(e[2])[0] for e in s if json.loads(e[3])[:1] == ["properties"] and json.loads(e[2]))
+                        for pn, sub in root["properties"].items():
+                            if not isinstance(xk, dict) or pn not in xk:
+                                continue
+                            ctx3 = spec.Ctx(case["draft"], resolver=GW.oracle_resolver(vc), fmt=ctx.fmt)
+                            try:
+                                pbad = not spec.valid(ctx3, sub, xk[pn], GW.root_uri(vc))
+                            except (spec.Unsupported, spec.Unresolvable, RecursionError):
+                                continue
+                            if ctx3.inexact or pbad == (pn in bad_impl):
+                                continue
+                            res.fail(("alone-property-differs-from-reference", "impl-silent" if pbad else "impl-reports"),
+                                     "validator %d of %d: property %r = %s under %s: O-SPEC says %s" % (
+                                         k, n, pn, impl.cj(xk[pn])[:60], impl.cj(sub)[:120], "violated" if pbad else "satisfied"))
+                            return res
                     if ctx2.inexact or viol == (kname in got_kw):
                         continue
                     res.fail(("alone-keyword-differs-from-reference", kname, "impl-silent" if viol else "impl-reports"),
